@@ -8,10 +8,11 @@ import (
 )
 
 // C12 facts from martian/core/jobmanager_local.go:
-//   localProcsPerJob   — const procsPerJob
-//   localAcquireOrder  — the semaphores on which Enqueue calls Acquire, in
-//                        source order (every job takes them in this one order,
-//                        the precondition for deadlock freedom of the nesting)
+//
+//	localProcsPerJob   — const procsPerJob
+//	localAcquireOrder  — the semaphores on which Enqueue calls Acquire, in
+//	                     source order (every job takes them in this one order,
+//	                     the precondition for deadlock freedom of the nesting)
 func init() {
 	addFact(fact{
 		name:   "localProcsPerJob",
@@ -102,6 +103,125 @@ func init() {
 				return "", nil, fmt.Errorf("no Acquire calls found in Enqueue")
 			}
 			return leanStrList(order), order, nil
+		},
+	})
+}
+
+// C12 facts about LocalJobManager.refreshResources (the availability-update path):
+//
+//	refreshTreeCall          — the arguments of its GetProcessTreeMemory call, as source text
+//	refreshTreeIncludesParent — the includeParent literal of that call
+//	refreshUpdateArgs        — (semaphore field, method, argument expressions) of every
+//	                           Update* call on a semaphore, in source order
+func init() {
+	find := func(repo string) (*token.FileSet, *ast.FuncDecl, error) {
+		fset, f, err := parseFile(repo, "martian/core/jobmanager_local.go")
+		if err != nil {
+			return nil, nil, err
+		}
+		fd := findMethod(f, "LocalJobManager", "refreshResources")
+		if fd == nil || fd.Body == nil {
+			return nil, nil, fmt.Errorf("LocalJobManager.refreshResources not found")
+		}
+		return fset, fd, nil
+	}
+	treeCall := func(repo string) ([]string, error) {
+		fset, fd, err := find(repo)
+		if err != nil {
+			return nil, err
+		}
+		var calls [][]string
+		ast.Inspect(fd.Body, func(n ast.Node) bool {
+			if c, ok := n.(*ast.CallExpr); ok && exprText(fset, c.Fun) == "GetProcessTreeMemory" {
+				var a []string
+				for _, e := range c.Args {
+					a = append(a, exprText(fset, e))
+				}
+				calls = append(calls, a)
+			}
+			return true
+		})
+		if len(calls) != 1 || len(calls[0]) != 3 {
+			return nil, fmt.Errorf("expected exactly one GetProcessTreeMemory(pid, includeParent, io) call in refreshResources, found %d", len(calls))
+		}
+		return calls[0], nil
+	}
+	addFact(fact{
+		name:   "refreshTreeCall",
+		leanTy: "List String",
+		deflt:  `["os.Getpid()", "false", "nil"]`,
+		extract: func(repo string) (string, interface{}, error) {
+			a, err := treeCall(repo)
+			if err != nil {
+				return "", nil, err
+			}
+			return leanStrList(a), a, nil
+		},
+	})
+	addFact(fact{
+		name:   "refreshTreeIncludesParent",
+		leanTy: "Bool",
+		deflt:  "false",
+		extract: func(repo string) (string, interface{}, error) {
+			a, err := treeCall(repo)
+			if err != nil {
+				return "", nil, err
+			}
+			switch a[1] {
+			case "true":
+				return "true", true, nil
+			case "false":
+				return "false", false, nil
+			}
+			return "", nil, fmt.Errorf("includeParent is not a literal: %s", a[1])
+		},
+	})
+	addFact(fact{
+		name:   "refreshUpdateArgs",
+		leanTy: "List (String × String × List String)",
+		deflt: `[("memMBSem", "UpdateFreeUsed", ["(sysMem.ActualFree + 1024*1024 - 1) / (1024 * 1024)", "(usedMem.Rss + 1024*1024 - 1) / (1024 * 1024)"]), ` +
+			`("vmemMBSem", "UpdateActual", ["self.maxVmemMB - usedMem.Vmem/(1024*1024)"]), ` +
+			`("centcoreSem", "UpdateActual", ["int64((float64(runtime.NumCPU()) - load.One + 0.9) * 100)"]), ` +
+			`("procsSem", "UpdateFreeUsed", ["rlimCur(rlim) - int64(userProcs)", "int64(usedMem.Procs) + startingThreadCount"])]`,
+		extract: func(repo string) (string, interface{}, error) {
+			fset, fd, err := find(repo)
+			if err != nil {
+				return "", nil, err
+			}
+			var parts []string
+			var js [][]interface{}
+			ast.Inspect(fd.Body, func(n ast.Node) bool {
+				c, ok := n.(*ast.CallExpr)
+				if !ok {
+					return true
+				}
+				se, ok := c.Fun.(*ast.SelectorExpr)
+				if !ok || len(se.Sel.Name) < 6 || se.Sel.Name[:6] != "Update" {
+					return true
+				}
+				rx, ok := se.X.(*ast.SelectorExpr)
+				if !ok {
+					return true
+				}
+				var a []string
+				for _, e := range c.Args {
+					a = append(a, exprText(fset, e))
+				}
+				parts = append(parts, fmt.Sprintf("(%s, %s, %s)", leanStr(rx.Sel.Name), leanStr(se.Sel.Name), leanStrList(a)))
+				js = append(js, []interface{}{rx.Sel.Name, se.Sel.Name, a})
+				return true
+			})
+			if len(parts) == 0 {
+				return "", nil, fmt.Errorf("no Update* calls found in refreshResources")
+			}
+			s := "["
+			for i, p := range parts {
+				if i > 0 {
+					s += ", "
+				}
+				s += p
+			}
+			return s + "]", js, nil
 		},
 	})
 }
